@@ -165,7 +165,7 @@ def parse_kani_output(text):
     cur = {}            # thread id -> harness
     active = None
     for line in text.split('\n'):
-        m = re.match(r'^(?:Thread (\d+): )?Checking harness (\S+?)\.\.\.\s*$', line)
+        m = re.match(r'^(?:Thread (\d+): )?Checking harness (.+?)\.\.\.\s*$', line)
         if m:
             tid = m.group(1) or '-'
             cur[tid] = m.group(2)
